@@ -410,3 +410,304 @@ def run(ctx) -> None:  # noqa: F811
               f"`{shown}` is not M·S·M⁻¹: rows must be scaled by M_i and columns by 1/M_j; the transposed scaling gives "
               "M⁻¹·S·M, which differs from the eigen-decomposition path for beams with g_z != 0", key_detail="similarity")
     _inner_run_c26c(ctx)
+
+
+# ---- added after the mutation sweep: Hermitian structure matrix, linear propagation with the zero-thickness limit
+_inner_run_c26d = run
+
+_ROW, _COL = "@row", "@col"
+
+
+class _BroadcastNorm:
+    """Term normal form in which `X[None]` / `X[None, :]` (value varies with the column index j) and `X[:, None]` (varies
+    with the row index i) are the atoms X@col and X@row; transposition of the matrix exchanges them."""
+
+    def __init__(self, df, node_idx: int):
+        from ..terms import FlowNormalizer
+
+        outer = self
+        self.seen_vectors: set[str] = set()
+
+        class NZ(FlowNormalizer):
+            def norm(self, n):  # noqa: ANN001
+                if isinstance(n, ast.Subscript):
+                    kind = outer.kind(n.slice)
+                    if kind is not None:
+                        base = super().norm(n.value)
+                        if not (base.is_monomial() and len(base.atoms()) == 1 and base.key().startswith("1*")):
+                            raise AnalysisError(f"broadcast of the composite term {base.key()[:50]} is not modelled")
+                        a = next(iter(base.atoms()))
+                        outer.seen_vectors.add(a)
+                        return Poly.atom(a + kind)
+                return super().norm(n)
+
+            def _call(self, n):  # noqa: ANN001
+                if isinstance(n.func, ast.Attribute) and n.func.attr in ("reshape", "copy", "astype") and \
+                        not (isinstance(n.func.value, ast.Name) and n.func.value.id in ("np", "xp", "cp")):
+                    return self.norm(n.func.value)
+                return super()._call(n)
+
+        self.nz = NZ(df, node_idx)
+
+    @staticmethod
+    def kind(s: ast.AST):
+        parts = s.elts if isinstance(s, ast.Tuple) else [s]
+
+        def none(p):
+            return (isinstance(p, ast.Constant) and p.value is None) or dotted(p) in ("np.newaxis", "xp.newaxis")
+
+        def full(p):
+            return (isinstance(p, ast.Slice) and p.lower is None and p.upper is None and p.step is None) or (
+                isinstance(p, ast.Constant) and p.value is Ellipsis)
+
+        if not all(none(p) or full(p) for p in parts) or sum(1 for p in parts if none(p)) != 1:
+            return None
+        if none(parts[0]):
+            return _COL  # X[None], X[None, :], X[None, ...]
+        if len(parts) >= 2 and full(parts[0]) and none(parts[1]):
+            return _ROW  # X[:, None], X[:, None, :]
+        return None
+
+    def norm(self, e: ast.AST) -> Poly:
+        return self.nz.norm(e)
+
+
+def _transpose(p: Poly, bare_vectors: set[str] = frozenset()) -> Poly:
+    def sw(a: str) -> str:
+        if a.endswith(_ROW):
+            return a[:-len(_ROW)] + _COL
+        if a.endswith(_COL):
+            return a[:-len(_COL)] + _ROW
+        return a
+
+    return Poly({tuple(sorted((sw(a), e) for a, e in m)): c for m, c in p.terms.items()})
+
+
+def _check_hermitian(ctx) -> None:
+    rule = "R-HERMITIAN"
+    repo = ctx.repo
+    f = repo.function(MOD, "calculate_structure_matrix")
+    df = DataFlow(f.node)
+    callee = repo.function("abtem.bloch.utils", "retrieve_structure_factor_values")
+    calls = [c for c in walk_no_nested(f.node) if isinstance(c, ast.Call) and call_name(c) == callee.name]
+    ctx.require(len(calls) == 1, f"{f.qualname}: expected one call of {callee.name}")
+    c = calls[0]
+    b = bind_args(c, callee)
+    ctx.require("hkl_destination" in b, f"{f.qualname}: cannot bind the destination indices of {callee.name}")
+    st = _stmt_of(f.node, c)
+    at = df.cfg.node_of(st).idx
+    bn = _BroadcastNorm(df, at)
+    p = bn.norm(b["hkl_destination"])
+    ctx.require(any(a.endswith((_ROW, _COL)) for a in p.atoms()),
+                f"{f.qualname}: the index table `{norm_text(b['hkl_destination'])}` handed to {callee.name} is not built by "
+                "broadcasting a vector against itself ([None] / [:, None])")
+    ctx.check(_transpose(p) == -p, rule, f"{f.qualname}:index table antisymmetric", f.loc(c),
+              f"A[i, j] = F({_k(p)}): exchanging i and j negates the reflection",
+              f"the structure matrix is filled with F({_k(p)}); exchanging row and column gives F({_k(_transpose(p))}), which "
+              f"is not F(-({_k(p)})): A[j, i] is then not conj(A[i, j]) (F(-g) = conj F(g)), the matrix is not Hermitian and "
+              "exp(i·pi·lambda·z·A) is not unitary — the intensities do not sum to one", key_detail="antisymmetric")
+    # in-place scalings of the matrix between retrieval and return
+    ctx.require(isinstance(st, ast.Assign) and isinstance(st.targets[0], ast.Name), f"{f.qualname}: the retrieved matrix is "
+                "not bound to a name")
+    mname = st.targets[0].id
+    bare = set()
+    for n_ in walk_no_nested(f.node):
+        if isinstance(n_, ast.Subscript) and isinstance(n_.value, ast.Name) and _BroadcastNorm.kind(n_.slice) is not None:
+            bare.add(n_.value.id)
+    k = 0
+    for node in df.cfg.nodes:
+        s2 = node.ast
+        if node.kind == "stmt" and isinstance(s2, ast.AugAssign) and isinstance(s2.target, ast.Name) and \
+                s2.target.id == mname and isinstance(s2.op, (ast.Mult, ast.Div)):
+            k += 1
+            bn2 = _BroadcastNorm(df, node.idx)
+            q = bn2.norm(s2.value)
+            # a vector used without an explicit broadcast aligns with the last axis (columns)
+            naked = sorted(a for a in q.atoms() if a in bare)
+            if naked:
+                q = q.subst({a: Poly.atom(a + _COL) for a in naked})
+            ctx.check(_transpose(q) == q, rule, f"{f.qualname}:scaling #{k} symmetric", f.loc(s2),
+                      f"the factor {_k(q)[:80]} is the same for (i, j) and (j, i)",
+                      f"`{norm_text(s2)[:70]}` scales element (i, j) by {_k(q)[:80]} and element (j, i) by "
+                      f"{_k(_transpose(q))[:80]}: a Hermitian matrix scaled by a non-symmetric real factor is not Hermitian "
+                      "(as soon as a beam has g_z != 0 and M != 1), so the propagator is not unitary",
+                      key_detail="symmetric")
+
+
+def _check_linear(ctx) -> None:
+    rule = "R-PROPAGATE"
+    repo = ctx.repo
+    f = repo.function(MOD, "calculate_dynamical_scattering")
+    df = DataFlow(f.node)
+    eigh = [st for st in walk_no_nested(f.node) if isinstance(st, ast.Assign) and isinstance(st.value, ast.Call)
+            and last_attr(st.value) in ("eigh", "eig") and isinstance(st.targets[0], ast.Tuple)
+            and len(st.targets[0].elts) == 2 and all(isinstance(e, ast.Name) for e in st.targets[0].elts)]
+    ctx.require(len(eigh) == 1, f"{f.qualname}: expected one `values, vectors = eigh(structure_matrix)`")
+    vec = eigh[0].targets[0].elts[1].id
+    NONLINEAR = "nonlinear"
+
+    class Unreadable(Exception):
+        pass
+
+    def inline(e, at, depth=0):
+        while isinstance(e, ast.Name) and depth < 12:
+            d = df.single_def(at, e.id)
+            if d is None or d.kind != "assign" or d.value is None:
+                break
+            stt = df.cfg.nodes[d.node].ast
+            if isinstance(stt, ast.Assign) and isinstance(stt.targets[0], (ast.Tuple, ast.List)) and \
+                    not isinstance(stt.value, (ast.Tuple, ast.List)):
+                break
+            e, at, depth = d.value, d.node, depth + 1
+        return e, at
+
+    def is_psi0(e, at) -> bool:
+        e, at = inline(e, at)
+        while isinstance(e, ast.Call) and last_attr(e) in ("asarray", "array", "astype", "copy") and (e.args or
+                isinstance(e.func, ast.Attribute)):
+            e = e.args[0] if e.args and dotted(e.func) and dotted(e.func).split(".")[0] in ("np", "xp", "cp") else \
+                e.func.value
+            e, at = inline(e, at)
+        return isinstance(e, ast.Call) and call_name(e) == "plane_wave_coefficients"
+
+    def has_psi0(e, at, depth=0) -> bool:
+        if depth > 12:
+            return False
+        if is_psi0(e, at):
+            return True
+        e2, at2 = inline(e, at)
+        if e2 is not e:
+            return has_psi0(e2, at2, depth + 1)
+        return any(has_psi0(ch, at, depth + 1) for ch in ast.iter_child_nodes(e) if isinstance(ch, ast.expr))
+
+    def matrix(e, at):
+        """(name, inverted) of a square-matrix factor"""
+        e, at = inline(e, at)
+        if isinstance(e, ast.Name):
+            return (e.id, False)
+        txt = norm_text(e).replace(" ", "")
+        adj = {f"xp.conjugate({vec}.T)", f"np.conjugate({vec}.T)", f"xp.conj({vec}.T)", f"np.conj({vec}.T)",
+               f"{vec}.conj().T", f"{vec}.T.conj()", f"{vec}.conjugate().T", f"{vec}.T.conjugate()",
+               f"xp.conjugate({vec}).T", f"np.conjugate({vec}).T", f"xp.conj({vec}).T", f"np.conj({vec}).T"}
+        mods = {d_.var for d_ in df.defs if isinstance(d_.value, ast.Call) and (call_name(d_.value) or "").endswith(
+            "get_array_module")}
+        for m_ in mods:
+            txt = txt.replace(f"{m_}.", "xp.")
+        if txt in adj:
+            return (vec, True)  # unitary eigenvector matrix: adjoint = inverse (R-EIGVEC guards its integrity)
+        if isinstance(e, ast.Call) and last_attr(e) in ("inv", "pinv") and e.args:
+            inner = matrix(e.args[0], at)
+            return (inner[0], not inner[1])
+        raise Unreadable(f"matrix factor `{norm_text(e)[:50]}`")
+
+    def vecname(e, at) -> str:
+        e, at = inline(e, at)
+        while isinstance(e, ast.Call) and last_attr(e) in ("asarray", "array") and e.args:
+            e, at = inline(e.args[0], at)
+        if isinstance(e, ast.Call) and last_attr(e) == "exp":
+            return "E"
+        return "diag(" + norm_text(e)[:60] + ")"
+
+    def chain(e, at, depth=0):
+        """factors (name, inverted), left to right, acting on the initial wave; NONLINEAR when the wave is divided by"""
+        if depth > 30:
+            raise Unreadable("expression too deep")
+        if is_psi0(e, at):
+            return []
+        e2, at2 = inline(e, at)
+        if e2 is not e:
+            return chain(e2, at2, depth + 1)
+        if isinstance(e, ast.BinOp) and isinstance(e.op, ast.MatMult):
+            rest = chain(e.right, at, depth + 1)
+            return rest if rest == NONLINEAR else [matrix(e.left, at)] + rest
+        if isinstance(e, ast.Call) and last_attr(e) in ("dot", "matmul") and len(e.args) == 2:
+            rest = chain(e.args[1], at, depth + 1)
+            return rest if rest == NONLINEAR else [matrix(e.args[0], at)] + rest
+        if isinstance(e, ast.BinOp) and isinstance(e.op, ast.Mult):
+            l, r = has_psi0(e.left, at), has_psi0(e.right, at)
+            if l and r:
+                return NONLINEAR
+            v, w = (e.left, e.right) if r else (e.right, e.left)
+            rest = chain(w, at, depth + 1)
+            return rest if rest == NONLINEAR else [(vecname(v, at), False)] + rest
+        if isinstance(e, ast.BinOp) and isinstance(e.op, ast.Div):
+            if has_psi0(e.right, at):
+                return NONLINEAR
+            rest = chain(e.left, at, depth + 1)
+            return rest if rest == NONLINEAR else [(vecname(e.right, at), True)] + rest
+        raise Unreadable(f"`{norm_text(e)[:50]}`")
+
+    def reduce_(fs):
+        fs = [x for x in fs if x[0] != "E"]
+        changed = True
+        while changed:
+            changed = False
+            for i in range(len(fs) - 1):
+                if fs[i][0] == fs[i + 1][0] and fs[i][1] != fs[i + 1][1]:
+                    del fs[i:i + 2]
+                    changed = True
+                    break
+        return fs
+
+    rets = [r for r in walk_no_nested(f.node) if isinstance(r, ast.Return) and isinstance(r.value, ast.Name)]
+    ctx.require(len(rets) == 1, f"{f.qualname}: expected one `return <array>`")
+    results = []
+    for d in df.reaching(df.cfg.node_of(rets[0]).idx, rets[0].value.id):
+        st = df.cfg.nodes[d.node].ast
+        if isinstance(st, ast.Assign) and has_psi0(st.value, d.node):
+            results.append((st, d.node))
+    ctx.require(len(results) >= 1, f"{f.qualname}: the returned array does not derive from the incident plane wave")
+    for k, (st, at) in enumerate(results):
+        arm = "loop over thicknesses" if df.cfg.nodes[at].loops else "scalar thickness"
+        try:
+            fs = chain(st.value, at)
+        except Unreadable as e:
+            raise AnalysisError(f"{f.qualname}: cannot read the propagation `{norm_text(st)[:60]}` as a product of matrices "
+                                f"and element-wise factors applied to the incident wave ({e})")
+        shown = norm_text(st.value)[:70]
+        if fs == NONLINEAR:
+            ctx.violation(rule, f"{f.qualname}:propagation [{arm}]", f.loc(st),
+                          f"`{shown}` divides by (or squares) the propagated wave: the exit wave is not a linear image "
+                          "M·C·exp(2πi·γ·t)·C⁻¹·M⁻¹·ψ0 of the incident wave, its intensities do not sum to one and at zero "
+                          "thickness it is not the direct beam", key_detail="nonlinear")
+            continue
+        n_e = sum(1 for x in fs if x[0] == "E")
+        # M = 1 for the direct beam (g = 0): diag(M)^±1 acting directly on the incident plane wave is the identity;
+        # the canonical chain ends with the inverse of the leading M factor
+        core = list(fs)
+        while core and core[-1][0].startswith("diag("):
+            core = core[:-1]
+        lead_m = bool(core) and core[0][0].startswith("diag(") and "calculate_M_matrix" in core[0][0] and not core[0][1]
+        if lead_m:
+            core = core + [(core[0][0], True)]
+        rest = reduce_(core)
+        if not lead_m and not rest:
+            rest = [("M (missing on the exit side)", False)]
+        pretty = " · ".join(n_ + ("⁻¹" if inv else "") for n_, inv in fs) or "1"
+        ctx.check(n_e == 1 and not rest, rule, f"{f.qualname}:propagation [{arm}]", f.loc(st),
+                  f"ψ(t) = {pretty} · ψ0 reduces to ψ0 at t = 0",
+                  f"ψ(t) = {pretty} · ψ0: with the phase factor E set to 1 (zero thickness) the factors "
+                  f"{' · '.join(n_ + ('⁻¹' if inv else '') for n_, inv in rest) or '(none)'} remain"
+                  + ("" if n_e == 1 else f" and the phase factor occurs {n_e} times") +
+                  " — the zero-thickness result is not the undiffracted direct beam and the eigen path is not "
+                  "M·exp(…)·M⁻¹ as the matrix-exponential path", key_detail="zero-thickness")
+
+
+def run(ctx) -> None:  # noqa: F811
+    ctx.rule("R-HERMITIAN", "calculate_structure_matrix fills A[i, j] = F(h_j - h_i): the index table handed to "
+             "retrieve_structure_factor_values is antisymmetric under the exchange of the row and the column broadcast "
+             "(X[None] <-> X[:, None], term normal form), and every later in-place scaling of the matrix is symmetric "
+             "under that exchange.  With F(-g) = conj F(g) this is what makes A Hermitian, hence exp(i·pi·lambda·z·A) "
+             "unitary and the intensities sum to one")
+    ctx.rule("R-PROPAGATE", "the eigen path computes ψ(t) = M·C·E(t)·C⁻¹·M⁻¹·ψ0 — read as a chain of matrix factors, "
+             "element-wise (diagonal) factors and their inverses applied to the incident plane wave: the wave enters "
+             "linearly (never in a denominator), the phase factor occurs once, and with E = 1 the chain cancels to the "
+             "identity (adjoint of the unitary eigenvector matrix = inverse; M = 1 on the direct beam), which is the "
+             "zero-thickness clause and the agreement with M·expm(…)·M⁻¹")
+    from ..rules import deferred
+
+    def new():
+        _check_hermitian(ctx)
+        _check_linear(ctx)
+
+    deferred.run(ctx, new, _inner_run_c26d)
